@@ -154,13 +154,12 @@ theorem MapOk.set_limited (hT : legalThreshold T = true) {m : OMap r} {c : Ctx} 
 theorem MapOk.remove_total (hT : legalThreshold T = true) {m : OMap r} {c : Ctx} (h : MapOk T D m c.ctr)
     (hcfg : CfgOk cfg T m) {k : MKey} (hk : KeyOk T (r + 1) D k)
     (hroom : m.isInlined = true → m.rootHdr.size + maxEntry T ≤ maxThr T)
-    (hctx : m.isInlined = false → CtxOk m c)
     {v : Elem} (hmem : (k, v) ∈ m.toList) :
     ∃ m' c', m.remove cfg k c = .ok (k, v, m', c') := by
   have hc : CfgFor cfg T (r + 1) := ⟨hcfg.1, hcfg.2.1⟩
   cases hinl : m.isInlined
-  · obtain ⟨hinv, _⟩ := h.1 hinl
-    obtain ⟨m2, c2, heq, _⟩ := (OMap.remove_specC hT hcfg hinv hk c (hctx hinl)).2 v hmem
+  · obtain ⟨hinv, hctr⟩ := h.1 hinl
+    obtain ⟨m2, c2, heq, _⟩ := (OMap.remove_specC hT hcfg hinv hk c hctr).2 v hmem
     exact ⟨m2, c2, heq⟩
   · obtain ⟨s, ty, cnt, seed, rfl, _⟩ := h.2 hinl
     obtain ⟨hloose, _, _, _, _⟩ := MapInvInl.loose (h.2 hinl)
@@ -177,11 +176,10 @@ theorem MapOk.remove_total (hT : legalThreshold T = true) {m : OMap r} {c : Ctx}
 /-- `OMap.remove` of an absent key: `keyNotFound` -/
 theorem MapOk.remove_absent (hT : legalThreshold T = true) {m : OMap r} {c : Ctx} (h : MapOk T D m c.ctr)
     (hcfg : CfgOk cfg T m) {k : MKey} (hk : KeyOk T (r + 1) D k)
-    (hctx : m.isInlined = false → CtxOk m c)
     (habs : ∀ p ∈ m.toList, p.1 ≠ k) : m.remove cfg k c = .error .keyNotFound := by
   have hc : CfgFor cfg T (r + 1) := ⟨hcfg.1, hcfg.2.1⟩
   cases hinl : m.isInlined
-  · exact (OMap.remove_specC hT hcfg (h.1 hinl).1 hk c (hctx hinl)).1 habs
+  · exact (OMap.remove_specC hT hcfg (h.1 hinl).1 hk c (h.1 hinl).2).1 habs
   · obtain ⟨s, ty, cnt, seed, rfl, _⟩ := h.2 hinl
     obtain ⟨hloose, _, _, _, _⟩ := MapInvInl.loose (h.2 hinl)
     have s1 := (remove_spec_zero hT hc s hloose hk c).1 habs
